@@ -178,6 +178,32 @@ def run(ctx):
             for j in range(0, len(cl), 12):
                 ctx.prove("ii/sum=1/%s/%s%d/%d" % (mesh, kind, deg, j // 12), z3.And(*cl[j : j + 12]), [], family="partition_of_unity", params=params, abs_cons=False, group="ii-unity-%s%d" % (kind, deg))
             ctx.concrete("partition_of_unity/%s/%s%d" % (mesh, kind, deg), "partition_of_unity", params)
+        # segment spaces with boundary dofs included: the basis sums to one on every element of the segment
+        if mesh == "T6":
+            v7, e7, d7 = W.mesh("T7")
+            g7 = b.Grid(np.asarray(v7, dtype=float), np.asarray(e7), np.asarray(d7, dtype="uint32"))
+            for kind, deg in (("P", 1), ("DUAL", 0), ("DP", 0)):
+                for seg in ([1], [0, 2]):
+                    for trunc in (True, False):
+                        kw = {"segments": seg}
+                        if kind != "DP":
+                            kw.update(include_boundary_dofs=True, truncate_at_segment_edge=trunc)
+                        elif not trunc:
+                            continue
+                        params = {"mesh": "T7", "kind": kind, "deg": deg, "opts": kw}
+                        try:
+                            sp = b.function_space(g7, kind, deg, **kw)
+                            gf = b.GridFunction(sp, coefficients=lift_arr(np.ones(sp.global_dof_count)))
+                            fac = 6 if kind == "DUAL" else 1
+                            cl = []
+                            for el in range(g7.number_of_elements):
+                                if int(d7[el]) in seg:
+                                    for j in range(fac):
+                                        cl.append(eq_formula(gf.evaluate(fac * el + j, lp)[0, 0], ONE))
+                        except Exception as ex_:  # noqa: BLE001 - a constructor that raises on a documented option set is a candidate
+                            ctx.violation("ii/segment-sum=1/T7/%s%d/%s/%s/raises" % (kind, deg, seg, trunc), "partition_of_unity", params, "%s: %s" % (type(ex_).__name__, str(ex_)[:160]))
+                            continue
+                        ctx.prove("ii/segment-sum=1/T7/%s%d/%s/trunc=%s" % (kind, deg, "".join(map(str, seg)), trunc), z3.And(*cl), [], family="partition_of_unity", params=params, abs_cons=False, group="ii-unity-segment-%s%d" % (kind, deg))
         # dual nodal values: function j at the three corners of every barycentric element
         for kind, deg in (("DUAL", 0), ("DUAL", 1)):
             bad = dual_nodal_mismatches(b, g, kind, deg)
@@ -390,13 +416,18 @@ def concrete(family, params):
     if family == "partition_of_unity" or family == "dual_nodal":
         v, e, d = W.mesh(params["mesh"])
         g = b.Grid(np.asarray(v, dtype=float), np.asarray(e))
-        sp = b.function_space(g, params["kind"], params["deg"])
+        opts = params.get("opts") or {}
+        if opts:
+            g = b.Grid(np.asarray(v, dtype=float), np.asarray(e), np.asarray(d, dtype="uint32"))
+        sp = b.function_space(g, params["kind"], params["deg"], **opts)
         gf = b.GridFunction(sp, coefficients=np.ones(sp.global_dof_count))
         worst = 0.0
-        for el in sp.support_elements:
+        fac = 6 if params["kind"] == "DUAL" else 1
+        els = sp.support_elements if not opts else [fac * el + j for el in range(g.number_of_elements) if int(d[el]) in opts["segments"] for j in range(fac)]
+        for el in els:
             for p in ([0.2, 0.3], [0.0, 0.0], [1.0, 0.0], [0.0, 1.0], [0.5, 0.5]):
                 worst = max(worst, abs(gf.evaluate(int(el), np.array(p).reshape(2, 1))[0, 0] - 1))
-        return {"gap": worst if worst > 1e-12 else 0.0, "max_dev_from_1": worst, "key": "partition_of_unity/%s%d" % (params["kind"], params["deg"])}
+        return {"gap": worst if worst > 1e-12 else 0.0, "max_dev_from_1": worst, "key": "partition_of_unity/%s%d%s" % (params["kind"], params["deg"], "/segment" if opts else "")}
     if family in ("dof_count", "dof_maps", "dof_count_empty"):
         # replay of a solver model: the mask / flags of the model are applied through the public API
         from ..run import model_float
